@@ -31,12 +31,28 @@ CHECKS = {
         technique="TLA+ spec (Timers.tla) + TLC exhaustive/simulate + trace validation of recorded Python and Rust executions",
         engine="machine",
     ),
+    "C18": dict(
+        category="model_checking",
+        text="Scheduler.tla models AsyncDriver::run_for step by step (queue keyed by wake cycle with insertion order, the "
+             "three thread-local cells, event queue) with scripted tasks; TLC checks exhaustively (1-2 tasks with scripts of "
+             "length <=3 over sleeps {0,1,2,3} and emits, budgets {1,2,3,5,100} chosen at every run_for; thorough adds 3 "
+             "tasks) WakeExact, TimeMonotone, PartitionIndependent (log is a prefix of the budget-free reference log), "
+             "EventsOnceInOrder, Accounting. Every behaviour of a recorded model, 4-task `-simulate` behaviours and seeded "
+             "random task sets are executed on the real AsyncDriver (vh driver) and the recordings validated by TLC against "
+             "TraceScheduler.tla; AsyncRuntimeRunner (slices 1,2,3,7,10000, split runs) is compared with CoreRuntime::step on "
+             "generated looping programs with timers and interrupts enabled.",
+        design_ref="DESIGN.md section 4 (C18)",
+        note="Trusted: TLC, vh harness (driver.rs builds the scripted futures from sleep_cycles/emit_event/current_cycle). Tasks are spawned before the first run_for.",
+        technique="TLA+ spec (Scheduler.tla) + TLC exhaustive/simulate + trace validation of the real AsyncDriver + differential async/sync CPU runs",
+        engine="sched",
+    ),
 }
 
 NOT_YET = {
 }
 
 ENGINES = [
+    dict(name="sched", path="spec/sched", serves_properties=["C18"], kind_free_text="TLA+ virtual-time scheduler spec + trace spec"),
     dict(name="machine", path="spec/machine", serves_properties=["C13"], kind_free_text="TLA+ timers / interrupts / machine specs + trace specs"),
     dict(name="regs", path="spec/regs", serves_properties=["C08"], kind_free_text="TLA+ register-file state machine + trace spec"),
 ]
